@@ -20,6 +20,9 @@ func c09Configs(tier string) []c09.Bounds {
 			out = append(out, c09.Bounds{N: n, Epoch: e, Depth: depth})
 		}
 	}
+	// large validator sets with a big shrink (the recents window must survive the set switch)
+	out = append(out, c09.Bounds{N: 9, Epoch: 6, Depth: 8, U: 10, Big: true, GenesisShrink: 3}, c09.Bounds{N: 8, Epoch: 5, Depth: 8, U: 10, Big: true, GenesisShrink: 2},
+		c09.Bounds{N: 9, Epoch: 6, Depth: 7, U: 10, Big: true})
 	return out
 }
 
@@ -42,7 +45,7 @@ func init() {
 			states += res.States
 			trans += res.Transitions
 			traces += res.Traces
-			r.Count(fmt.Sprintf("states_N%d_E%d", b.N, b.Epoch), res.States)
+			r.Count(fmt.Sprintf("states_N%d_E%d_shrink%d", b.N, b.Epoch, b.GenesisShrink), res.States)
 			if !res.Exhaustive {
 				exhaustive = false
 				r.Incomplete(res.Incomplete)
